@@ -83,6 +83,13 @@ fn main() {
             for (l, a) in case.lines.iter().zip(runs[0].answers.iter()) {
                 println!("{}  =>  {}", ctx::short(l), ctx::short(&a.line()));
             }
+            for f in &ctx.findings {
+                println!("REPLAY-FINDING [{}] {}", f.class, ctx::short(&f.what));
+            }
+            if !ctx.findings.is_empty() {
+                std::process::exit(1);
+            }
+            println!("REPLAY-CLEAN: the generic oracles (truthful errors, no panic, accessor contract, model agreement) hold on this case");
         }
         "C01" => props::c01::run(&mut ctx),
         "C02" => props::c02::run(&mut ctx),
